@@ -1010,11 +1010,47 @@ func genMut(g *hx.Gen, n int) {
 	}
 }
 
+// genBurst: long one-directional bursts (more than 256 data messages in the same key slot, so the
+// 8-byte counter carries into its second byte), a reply, another burst. Every message must be delivered.
+func genBurst(g *hx.Gen) {
+	r := g.R
+	for _, n := range []int{260, 300, 520} {
+		seed := r.U64()
+		var toks []string
+		from := r.PickStr("a", "b")
+		to := map[string]string{"a": "b", "b": "a"}[from]
+		toks = append(toks, fmt.Sprintf("q%s.%s", from, hx.Hex(commitDigest(mix(seed, 0)))))
+		for j := 0; j < 4; j++ {
+			toks = append(toks, "da", "db")
+		}
+		burst := func(k int, immediate bool) {
+			for j := 0; j < k; j++ {
+				toks = append(toks, fmt.Sprintf("s%s.%s", from, hx.Hex([]byte(fmt.Sprintf("m%d", j)))))
+				if immediate {
+					toks = append(toks, "d"+to)
+				}
+			}
+			if !immediate {
+				for j := 0; j < k; j++ {
+					toks = append(toks, "d"+to)
+				}
+			}
+		}
+		burst(n, n != 300)
+		toks = append(toks, fmt.Sprintf("s%s.%s", to, hx.Hex([]byte("reply"))), "d"+from)
+		burst(260, true)
+		toks = append(toks, "da", "db")
+		g.Stat("conv.burst")
+		g.Emit("conv seed=%d fa=%d fb=%d script=%s", seed, hx.Pick(r, []int{0, 0, 200}), hx.Pick(r, []int{0, 0, 1000}), strings.Join(toks, ","))
+	}
+}
+
 func gen(g *hx.Gen) {
 	genEnc(g, g.Count(1000, 30000))
 	genFrag(g, g.Count(1500, 60000))
 	genRecv(g, g.Count(2500, 80000))
 	genConv(g, g.Count(120, 3000))
+	genBurst(g)
 	genMut(g, g.Count(800, 60000))
 }
 
